@@ -107,6 +107,23 @@ pub fn run_spaces(ctx: &Ctx, prop: &'static str, spaces: &[Space]) -> JobOut {
     }
     // heavier jobs first for better balance
     jobs.sort_by_key(|(i, _)| std::cmp::Reverse(((spaces[*i].alphabet.len() as f64).powi(spaces[*i].depth as i32) as u64).saturating_mul(spaces[*i].cfg.max_period().min(4096) as u64)));
+    // spaces with periods beyond 2^32 run after all others have reported: a change that turns such a period
+    // into a window size exhausts memory (a machinery exit), and the ordinary spaces should be heard first
+    let (jobs_huge, jobs): (Vec<(usize, usize)>, Vec<(usize, usize)>) = jobs.into_iter().partition(|(i, _)| spaces[*i].label == "huge period");
+    let run_one = |(i, a): &(usize, usize)| -> JobOut {
+        let sp = &spaces[*i];
+        let mut out = JobOut::default();
+        let near_max = sp.label.starts_with("near-max");
+        seq_job(ctx, prop, &sp.cfg, &sp.alphabet, *a, sp.depth, &mut out, |ops, last, out| {
+            if near_max {
+                oracle_node_scaled(prop, &sp.cfg, ops, last, out);
+            } else {
+                oracle_node(prop, &sp.cfg, ops, last, out);
+            }
+        });
+        out.stats.add(&format!("nodes[{}]", sp.label), out.stats.states);
+        out
+    };
     let outs = par_run(ctx, &jobs, |_, (i, a)| {
         let sp = &spaces[*i];
         let mut out = JobOut::default();
@@ -122,6 +139,12 @@ pub fn run_spaces(ctx: &Ctx, prop: &'static str, spaces: &[Space]) -> JobOut {
         out
     });
     let mut all = merge_jobs(outs);
+    if !all.failed() && !jobs_huge.is_empty() {
+        let outs = par_run(ctx, &jobs_huge, |_, j| run_one(j));
+        let h = merge_jobs(outs);
+        all.stats.merge(h.stats);
+        all.violations.extend(h.violations);
+    }
     // second pass: the same histories (to a reduced depth) with the instance serialized + restored, or
     // replaced by its clone, right before the last operation - the formulas hold for an indicator
     // whatever way it was obtained
